@@ -168,6 +168,9 @@ struct Cfg {
     set_valued: bool,
     /// sketch based quantiles: outside the property (reported only)
     sketch: bool,
+    /// floating point moment statistics: retraction is numerically unstable (catastrophic cancellation); a
+    /// retract-vs-recompute difference is reported as "drift" (a test statistic), never as a failure
+    float_stat: bool,
 }
 
 fn cfg(fname: &'static str, tys: &[Ty]) -> Cfg {
@@ -183,6 +186,8 @@ fn cfg(fname: &'static str, tys: &[Ty]) -> Cfg {
         order_sensitive: false,
         set_valued: false,
         sketch: false,
+        float_stat: matches!(fname, "covar_samp" | "covar_pop" | "corr" | "var" | "var_samp" | "var_pop" | "stddev" | "stddev_pop")
+            || fname.starts_with("regr_"),
     }
 }
 impl Cfg {
@@ -242,7 +247,6 @@ fn configs(fname: &'static str) -> Vec<Cfg> {
         "nth_value" => vec![
             cfg(fname, &[I64]).lit(ScalarValue::Int64(Some(2))).osens(),
             cfg(fname, &[I64]).lit(ScalarValue::Int64(Some(-2))).osens(),
-            cfg(fname, &[I64]).lit(ScalarValue::Int64(Some(2))).ordered(),
         ],
         "covar_samp" | "covar_pop" | "corr" | "regr_slope" | "regr_intercept" | "regr_count" | "regr_r2"
         | "regr_avgx" | "regr_avgy" | "regr_sxx" | "regr_syy" | "regr_sxy" => vec![cfg(fname, &f2)],
@@ -264,7 +268,7 @@ fn configs(fname: &'static str) -> Vec<Cfg> {
             cfg(fname, &[Utf8]).distinct(),
             cfg(fname, &[F64]).distinct(),
         ],
-        "var_samp" | "var_pop" | "stddev" | "stddev_pop" => vec![cfg(fname, &[F64]), cfg(fname, &[F64]).distinct()],
+        "var_samp" | "var" | "var_pop" | "stddev" | "stddev_pop" => vec![cfg(fname, &[F64]), cfg(fname, &[F64]).distinct()],
         "approx_median" => vec![cfg(fname, &[F64]).sketch()],
         "approx_distinct" => vec![cfg(fname, &[I64]), cfg(fname, &[Utf8]), cfg(fname, &[I8])],
         "approx_percentile_cont" => vec![cfg(fname, &[F64]).lit(ScalarValue::Float64(Some(0.25))).sketch()],
@@ -284,7 +288,7 @@ fn configs(fname: &'static str) -> Vec<Cfg> {
         "bool_and" | "bool_or" => vec![cfg(fname, &[Bool])],
         "avg" => vec![cfg(fname, &[F64]), cfg(fname, &[Dec]), cfg(fname, &[F64]).distinct()],
         "grouping" => vec![cfg(fname, &[I64])],
-        _ => vec![cfg(fname, &[I64]), cfg(fname, &[F64])],
+        _ => vec![cfg(fname, &[F64])],
     }
 }
 
@@ -465,7 +469,7 @@ fn cmp_res(a: &R<ScalarValue>, b: &R<ScalarValue>, set: bool) -> Cmp {
         if let (Some(x), Some(y)) = (as_f64(x), as_f64(y)) {
             let d = (x - y).abs();
             let m = x.abs().max(y.abs());
-            if d <= 1e-9 * m || d <= 1e-12 {
+            if d <= 1e-9 * m.max(1.0) {
                 return Cmp::Approx;
             }
         }
@@ -476,6 +480,8 @@ fn cmp_res(a: &R<ScalarValue>, b: &R<ScalarValue>, set: bool) -> Cmp {
 // ------------------------------------------------------------------ generators
 struct Gen {
     rng: Rng,
+    /// ORDER BY keys are unique within one case
+    key_base: i64,
 }
 impl Gen {
     fn val(&mut self, ty: Ty, profile: u64) -> Val {
@@ -522,7 +528,8 @@ impl Gen {
         let profile = *self.rng.pick(&[0u64, 0, 1, 1, 2, 3]);
         let null_pct = *self.rng.pick(&[0u64, 0, 20, 20, 60, 100]);
         let nv = inst.cfg.tys.len();
-        let mut keys: Vec<i64> = (0..n as i64).collect();
+        let mut keys: Vec<i64> = (self.key_base..self.key_base + n as i64).collect();
+        self.key_base += n as i64;
         for i in (1..n).rev() {
             let j = self.rng.below(i as u64 + 1) as usize;
             keys.swap(i, j);
@@ -756,8 +763,8 @@ fn retract_case(inst: &Inst, g: &mut Gen, id: u64) -> bool {
         cuts_json(&frames),
         obs.join(","),
         exp.join(","),
-        why.is_empty() || inst.cfg.sketch,
-        approx,
+        why.is_empty() || inst.cfg.sketch || inst.cfg.float_stat,
+        approx || (inst.cfg.float_stat && !why.is_empty()),
         inst.cfg.sketch,
         json_str(&why)
     );
@@ -804,6 +811,18 @@ fn wire_row_json(cols: &[ArrayRef], i: usize) -> String {
 fn wire_json(cols: &[ArrayRef]) -> String {
     let n = cols.first().map(|c| c.len()).unwrap_or(0);
     format!("[{}]", (0..n).map(|i| wire_row_json(cols, i)).collect::<Vec<_>>().join(","))
+}
+
+/// a single-row state is judged by merging it into a fresh GroupsAccumulator of the same kind (the real data
+/// flow partial -> final) and evaluating that
+fn judge_state(inst: &Arc<Inst>, one: &[ArrayRef]) -> R<ScalarValue> {
+    let (mut ga, _) = make_groups(inst)?;
+    call(|| ga.merge_batch(one, &[0], 1))?;
+    let arr = call(|| ga.evaluate(EmitTo::All))?;
+    if arr.len() != 1 {
+        return Err(format!("err:evaluate after merging one state row returned {} rows", arr.len()));
+    }
+    call(|| ScalarValue::try_from_array(&arr, 0))
 }
 
 struct Pooled {
@@ -922,13 +941,9 @@ fn groups_case(inst: &Arc<Inst>, g: &mut Gen, id: u64) -> bool {
                         let rr: Vec<Row> = if pass { vec![rows[i].clone()] } else { vec![] };
                         let one: Vec<ArrayRef> = cols.iter().map(|c| c.slice(i, 1)).collect();
                         // judged through a fresh scalar accumulator
-                        let got = (|| -> R<ScalarValue> {
-                            let mut a = inst.acc()?;
-                            call(|| a.merge_batch(&one))?;
-                            call(|| a.evaluate())
-                        })();
+                        let got = judge_state(inst, &one);
                         let want = eval_whole(inst, &rr);
-                        note!(cmp_res(&got, &want, set), format!("convert_to_state row {}: merged into a fresh accumulator gives {} but the row alone gives {}", i, res_json(&got), res_json(&want)));
+                        note!(cmp_res(&got, &want, set), format!("convert_to_state row {}: merged into a fresh groups accumulator gives {} but the row alone gives {}", i, res_json(&got), res_json(&want)));
                         pool.push(Pooled { cols: one, rows: rr });
                     }
                 }
@@ -982,8 +997,12 @@ fn groups_case(inst: &Arc<Inst>, g: &mut Gen, id: u64) -> bool {
         } else {
             // ---- emit: evaluate or state, All or First n
             let live = refs.len();
-            let all = last || live == 0 || g.rng.chance(1, 3);
-            let n = if all { live } else { g.rng.below(live as u64 + 1) as usize };
+            if live == 0 {
+                // the engine never emits zero groups
+                continue;
+            }
+            let all = last || g.rng.chance(1, 3);
+            let n = if all { live } else { 1 + g.rng.below(live as u64) as usize };
             let emit = if all { EmitTo::All } else { EmitTo::First(n) };
             let use_state = g.rng.chance(2, 5);
             let nj = if all { "null".to_string() } else { n.to_string() };
@@ -998,13 +1017,9 @@ fn groups_case(inst: &Arc<Inst>, g: &mut Gen, id: u64) -> bool {
                         }
                         for i in 0..n {
                             let one: Vec<ArrayRef> = cols.iter().map(|c| c.slice(i, 1)).collect();
-                            let got = (|| -> R<ScalarValue> {
-                                let mut a = inst.acc()?;
-                                call(|| a.merge_batch(&one))?;
-                                call(|| a.evaluate())
-                            })();
+                            let got = judge_state(inst, &one);
                             let want = eval_whole(inst, &refs[i]);
-                            note!(cmp_res(&got, &want, set), format!("state({}) group {}: merged into a fresh accumulator gives {} but scalar accumulation of the group's rows gives {}", nj, i, res_json(&got), res_json(&want)));
+                            note!(cmp_res(&got, &want, set), format!("state({}) group {}: merged into a fresh groups accumulator gives {} but scalar accumulation of the group's rows gives {}", nj, i, res_json(&got), res_json(&want)));
                             pool.push(Pooled { cols: one, rows: refs[i].clone() });
                         }
                     }
@@ -1073,7 +1088,7 @@ fn witnesses(insts: &[Arc<Inst>]) {
             continue;
         }
         let ty = inst.cfg.tys[0];
-        let mut g = Gen { rng: Rng::new(7) };
+        let mut g = Gen { rng: Rng::new(7), key_base: 0 };
         let v = g.val(ty, 1);
         let rows: Vec<Row> = vec![vec![Some(v)], vec![None]];
         let mut sl = match inst.sliding() {
@@ -1126,7 +1141,7 @@ fn main() {
     let n: u64 = arg(&args, "--n", "40").parse().unwrap_or(40);
     let only = arg(&args, "--only", "");
     std::panic::set_hook(Box::new(|_| {}));
-    let mut g = Gen { rng: Rng::new(seed) };
+    let mut g = Gen { rng: Rng::new(seed), key_base: 0 };
     let mut insts: Vec<Arc<Inst>> = vec![];
     for udf in datafusion_functions_aggregate::all_default_aggregate_functions() {
         let name: &'static str = Box::leak(udf.name().to_string().into_boxed_str());
@@ -1169,20 +1184,45 @@ fn main() {
         }
     }
     witnesses(&insts);
+    // fixed-seed streams for the configurations with listed findings: the same inputs on every run
+    {
+        let mut wg = Gen { rng: Rng::new(424242), key_base: 0 };
+        let mut wid = 1_000_000u64;
+        for inst in &insts {
+            let t = inst.cfg.tag.as_str();
+            if t == "nth_value(i64)[-2]" {
+                for _ in 0..300 {
+                    wid += 1;
+                    wg.key_base = 0;
+                    scalar_case(inst, &mut wg, wid);
+                }
+            }
+            if t == "bit_xor(i64) distinct" || t.starts_with("percentile_cont(") {
+                for _ in 0..25 {
+                    wid += 1;
+                    wg.key_base = 0;
+                    groups_case(inst, &mut wg, wid);
+                }
+            }
+        }
+    }
     let mut id = 0u64;
     for inst in &insts {
         for _ in 0..n {
             id += 1;
+            g.key_base = 0;
             scalar_case(inst, &mut g, id);
         }
         for _ in 0..(n / 2).max(1) {
             id += 1;
+            g.key_base = 0;
             if !retract_case(inst, &mut g, id) {
                 break;
             }
         }
         for _ in 0..n {
             id += 1;
+            g.key_base = 0;
             if !groups_case(inst, &mut g, id) {
                 break;
             }
